@@ -13,15 +13,22 @@
 //  s<seed>_<k>  Circuit::placeGlobal / legalize / placeDetailed and compositions on
 //               vc::genCircuit circuits with any mix of fixed cells, with no / an observing /
 //               a throwing callback, valid and rejected parameters, feasible and infeasible
-//               legalization.  Where the stage runs without callback, the vectors of a twin
-//               run of the algorithm object (Legalizer / DetailedPlacer / GlobalPlacer) are
-//               handed to the Lean export model and must reproduce the stage's result.
+//               legalization.  With valid parameters the vectors of a twin run of the algorithm
+//               object (Legalizer / DetailedPlacer / GlobalPlacer, same callback schedule, same
+//               throwing index) are handed to the Lean export model: the LB/UB float vectors and the
+//               blending weight for the final global export (`gfin`: blendPlacement is modelled in
+//               binary32), and — when a callback is installed — the vectors the twin exposes at
+//               every callback (`gcb` / `dcb`, read from the twin's private members); the circuit
+//               the user's callback sees in the real Circuit::placeGlobal/placeDetailed run must be
+//               the model's export at every invocation, and the final circuit too, also when the
+//               callback throws (the sequence is then cut at that invocation).
 //
 // Direct oracle (both streams): a snapshot of every public getter of Circuit before and
 // after each call and at every callback; only x / y (and, except for global placement,
 // the orientation) of non-fixed cells may differ.
 #include <cmath>
 #include <cstring>
+#include <memory>
 #include <optional>
 
 #include "common/circuit.hpp"
@@ -193,11 +200,17 @@ static vc::GenOpts pickOpts(vh::Rng &g, bool small) {
   return o;
 }
 
-// genCircuit draws 0..3 fixed cells at the end; make "any mix": additionally fix a random subset
+// genCircuit draws 0..3 fixed cells; make "any mix": additionally fix a random subset, and plant the
+// shapes the frame is most easily broken on (measured below in measureShapes):
+//   P1 a fixed cell that is NOT an obstruction (a skip test that also looks at the obstruction flag misses it)
+//   P2 a fixed cell with a smaller index than a movable cell of another orientation (an export that
+//      uses the parallel index of the movable cells on the circuit's vectors hits it)
+//   P3 a fixed cell lying outside the rows' bounding box (a clamp into the placement area moves it)
 static Circuit makeCircuit(vh::Rng &g, bool small, vc::GenInfo *gi) {
   vc::GenOpts o = pickOpts(g, small);
   Circuit c = vc::genCircuit(g, o, gi);
   int mode = g.range(0, 5);
+  int n = c.nbCells();
   std::vector<bool> fx = c.cellIsFixed();
   if (mode == 0) {
     for (size_t i = 0; i < fx.size(); ++i)
@@ -207,11 +220,88 @@ static Circuit makeCircuit(vh::Rng &g, bool small, vc::GenInfo *gi) {
   } else if (mode == 2) {
     for (size_t i = 0; i < fx.size(); ++i) fx[i] = false;  // nothing fixed
   }
+  if (mode != 1 && mode != 2 && n >= 2 && g.chance(1, 2)) {
+    std::vector<bool> ob = c.cellIsObstruction();
+    std::vector<int> x = c.cellX(), y = c.cellY();
+    std::vector<CellOrientation> orr = c.cellOrientation();
+    Rectangle a = c.computePlacementArea();
+    int plant = g.range(1, 7);  // bit 0: P1, bit 1: P2, bit 2: P3
+    // the planted cell: an early index, so that movable cells follow it
+    int k = g.range(0, std::max(0, n / 2 - 1));
+    fx[k] = true;
+    if (plant & 1) ob[k] = false;
+    if (plant & 2) {
+      // make its orientation differ from the one of a later movable cell (same turn class: the size is kept)
+      for (int j2 = k + 1; j2 < n; ++j2)
+        if (!fx[j2]) {
+          static const CellOrientation flip[8] = {CellOrientation::S, CellOrientation::N, CellOrientation::E, CellOrientation::W,
+                                                  CellOrientation::FS, CellOrientation::FN, CellOrientation::FE, CellOrientation::FW};
+          if (orr[k] == orr[j2]) orr[k] = flip[(int)orr[k] & 7];
+          break;
+        }
+    }
+    if (plant & 4) {
+      switch (g.range(0, 3)) {
+        case 0: x[k] = a.maxX + g.range(1, 40); break;
+        case 1: x[k] = a.minX - g.range(20, 60); break;
+        case 2: y[k] = a.maxY + g.range(1, 40); break;
+        default: y[k] = a.minY - g.range(20, 60); break;
+      }
+    }
+    c.setCellIsObstruction(ob);
+    c.setCellX(x);
+    c.setCellY(y);
+    c.setCellOrientation(orr);
+  }
   c.setCellIsFixed(fx);
   return c;
 }
 
+// the measured distribution of the shapes above (prefix: "export" / "stage")
+static void measureShapes(ChildOut &co, const std::string &pre, const Circuit &c) {
+  int n = c.nbCells();
+  Rectangle a = c.computePlacementArea();
+  bool p1 = false, p2 = false, p3 = false, p3in = false, lowFixed = false;
+  int firstMovable = -1;
+  for (int i = 0; i < n; ++i)
+    if (!c.isFixed(i) && firstMovable < 0) firstMovable = i;
+  for (int i = 0; i < n; ++i) {
+    if (!c.isFixed(i)) continue;
+    if (!c.isObstruction(i)) p1 = true;
+    Rectangle r = c.placement(i);
+    bool outside = c.nbRows() > 0 && (r.maxX > a.maxX || r.minX < a.minX || r.maxY > a.maxY || r.minY < a.minY);
+    if (outside) p3 = true;
+    else p3in = true;
+    for (int j = i + 1; j < n; ++j)
+      if (!c.isFixed(j)) {
+        lowFixed = true;
+        if (c.orientation(j) != c.orientation(i)) p2 = true;
+      }
+  }
+  if (p1) co.count(pre + ":shape_fixed_not_obstruction");
+  if (p2) co.count(pre + ":shape_fixed_before_movable_of_other_orientation");
+  if (lowFixed) co.count(pre + ":shape_fixed_before_movable");
+  if (p3) co.count(pre + ":shape_fixed_outside_rows");
+  if (p3in) co.count(pre + ":shape_fixed_inside_rows");
+  if (p1 && p2 && p3) co.count(pre + ":shape_all_three");
+}
+
 static std::string exactFloat(float f) { return vc::exactDouble((double)f); }
+
+static std::vector<float> blend(const std::vector<float> &v1, const std::vector<float> &v2, float b) {
+  if (b == 0.0f) return v1;
+  if (b == 1.0f) return v2;
+  std::vector<float> r;
+  for (size_t i = 0; i < v1.size(); ++i) r.push_back((1.0f - b) * v1[i] + b * v2[i]);
+  return r;
+}
+
+// x - 0.5*w is computed in double by the real code; the Lean model is exact.  True iff they agree.
+static bool exactSub(float x, int w) {
+  long double e = (long double)x - 0.5L * (long double)w;  // 64-bit mantissa: exact for the magnitudes here
+  double d = (double)x - 0.5 * w;
+  return std::isfinite(x) && (long double)d == e && std::fabs(d) < 1.0e9;
+}
 
 // ------------------------------------------------------------------ export stream
 
@@ -245,6 +335,7 @@ static void exportCase(ChildOut &co, const std::string &id, vh::Rng &g) {
   co.opCircuit(base);
   Snap before = snap(base);
   co.count("export:fixed_cells_" + std::to_string(std::min(n - nMov, 4)) + (n - nMov >= 4 ? "+" : ""));
+  measureShapes(co, "export", base);
   // --- global
   for (int rep = 0; rep < 2; ++rep) {
     Circuit c = base;
@@ -262,6 +353,51 @@ static void exportCase(ChildOut &co, const std::string &id, vh::Rng &g) {
     co.impl("gexp " + vc::solutionString(c));
     checkFrame(co, "GlobalPlacer::exportPlacement", before, c, false, input + op.str());
     co.eval();
+  }
+  // --- global, final export: GlobalPlacer::exportPlacement(circuit) blends arbitrary LB / UB vectors (set through
+  // the private members of a real GlobalPlacer) with an arbitrary weight
+  for (int rep = 0; rep < 2; ++rep) {
+    Circuit c = base;
+    std::unique_ptr<GlobalPlacer> pl;
+    try {
+      ColoquinteParameters prm;
+      pl.reset(new GlobalPlacer(c, prm));
+    } catch (const std::exception &) {
+      co.count("export:blend_no_placer");
+      break;
+    }
+    static const std::vector<float> ws = {0.0f, 1.0f, 0.5f, 0.99f, 0.3f, -0.5f, 1.5f};
+    float w = g.chance(1, 2) ? g.pick(ws) : (float)g.range(-500, 1500) / 1000.0f;
+    pl->params_.global.exportBlending = w;
+    auto rnd = [&]() {
+      int k = g.range(0, 3);
+      if (k == 0) return (float)g.range(-800, 800) / 8.0f;
+      if (k == 1) return (float)g.range(-100000, 100000) / 1000.0f;  // not dyadic: every product rounds
+      if (k == 2) return (float)g.range(-2000000, 2000000) * 1.37f;
+      return (float)g.range(-30, 30);
+    };
+    std::vector<float> xl(n), xu(n), yl(n), yu(n);
+    std::ostringstream op;
+    op << "gfin " << exactFloat(w) << " " << n;
+    for (int i = 0; i < n; ++i) {
+      xl[i] = rnd(); xu[i] = g.chance(1, 4) ? xl[i] : rnd(); yl[i] = rnd(); yu[i] = g.chance(1, 4) ? yl[i] : rnd();
+      op << " " << exactFloat(xl[i]) << " " << exactFloat(xu[i]) << " " << exactFloat(yl[i]) << " " << exactFloat(yu[i]);
+    }
+    pl->xPlacementLB_ = xl; pl->xPlacementUB_ = xu; pl->yPlacementLB_ = yl; pl->yPlacementUB_ = yu;
+    std::vector<float> bx = blend(xl, xu, w), by = blend(yl, yu, w);
+    bool exact = true;
+    for (int i = 0; i < n; ++i)
+      if (!base.isFixed(i) && (!exactSub(bx[i], base.placedWidth(i)) || !exactSub(by[i], base.placedHeight(i)))) exact = false;
+    pl->exportPlacement(c);
+    checkFrame(co, "GlobalPlacer::exportPlacement(circuit)", before, c, false, input + op.str());
+    co.eval();
+    if (!exact) {
+      co.count("export:blend_inexact_subtraction");
+      continue;
+    }
+    co.op(op.str());
+    co.impl("gfin " + vc::solutionString(c));
+    co.count(w == 0.0f ? "export:blend_weight_0" : w == 1.0f ? "export:blend_weight_1" : "export:blend_weight_other");
   }
   // --- legalizer
   for (int rep = 0; rep < 3; ++rep) {
@@ -347,6 +483,11 @@ static ColoquinteParameters pickParams(vh::Rng &g, std::string &kind) {
   // keep the global placer short: the frame is exercised at every callback anyway
   p.global.maxNbSteps = std::min<int>(p.global.maxNbSteps, g.range(3, 12));
   if (p.global.nbInitialSteps >= p.global.maxNbSteps) p.global.nbInitialSteps = p.global.maxNbSteps - 1;
+  // the final export of global placement blends LB and UB: both shortcuts (0, 1) and genuine binary32 blends
+  if (g.chance(1, 2)) {
+    static const std::vector<float> ws = {0.0f, 1.0f, 0.5f, 0.75f, 0.1f, 0.9f, -0.25f, 1.25f};
+    p.global.exportBlending = g.chance(1, 2) ? g.pick(ws) : (float)g.range(-400, 1400) / 1000.0f;
+  }
   kind = "valid";
   if (g.chance(1, 10)) {
     kind = "rejected";
@@ -361,23 +502,35 @@ static ColoquinteParameters pickParams(vh::Rng &g, std::string &kind) {
   return p;
 }
 
-static std::vector<float> blend(const std::vector<float> &v1, const std::vector<float> &v2, float b) {
-  if (b == 0.0f) return v1;
-  if (b == 1.0f) return v2;
-  std::vector<float> r;
-  for (size_t i = 0; i < v1.size(); ++i) r.push_back((1.0f - b) * v1[i] + b * v2[i]);
-  return r;
+// One float as the driver reads it; non-finite values (only possible for cells the export skips) as 0.
+static std::string fl(float f) { return exactFloat(std::isfinite(f) ? f : 0.0f); }
+
+// every movable cell's x - 0.5*w / y - 0.5*h exact in double?
+static bool exactVectors(const Circuit &c, const std::vector<float> &xs, const std::vector<float> &ys) {
+  if ((int)xs.size() != c.nbCells() || (int)ys.size() != c.nbCells()) return false;
+  for (int i = 0; i < c.nbCells(); ++i)
+    if (!c.isFixed(i) && (!exactSub(xs[i], c.placedWidth(i)) || !exactSub(ys[i], c.placedHeight(i)))) return false;
+  return true;
 }
 
-// x - 0.5*w is computed in double by the real code; the Lean model is exact.  True iff they agree.
-static bool exactSub(float x, int w) {
-  long double e = (long double)x - 0.5L * (long double)w;  // 64-bit mantissa: exact for the magnitudes here
-  double d = (double)x - 0.5 * w;
-  return std::isfinite(x) && (long double)d == e && std::fabs(d) < 1.0e9;
+static std::string detOp(const char *kw, const DetailedPlacement &dp) {
+  std::ostringstream op;
+  op << kw << " " << dp.nbCells();
+  for (int j = 0; j < dp.nbCells(); ++j)
+    op << " " << dp.cellIndex()[j] << " " << dp.cellX(j) << " " << dp.cellY(j) << " " << (int)dp.cellOrientation(j);
+  return op.str();
 }
 
-// Twin run of the algorithm object; emits the op for the Lean export model and returns true if emitted.
-static bool twinOps(ChildOut &co, char stage, const Circuit &start, const ColoquinteParameters &params, std::string &why) {
+// Twin run of the algorithm object with the callback schedule of the real run (cbMode 0: none; otherwise a
+// callback that throws at invocation throwAt, -1 = never).  Emits the ops for the Lean export model and
+// returns true if emitted; `skipCallbacks`: number of leading invocations of the real run that have no
+// counterpart in the twin (the one at the end of DetailedPlacer::legalize).
+static bool twinOps(ChildOut &co, char stage, const Circuit &start, const ColoquinteParameters &params, int cbMode, long long throwAt,
+                    std::string &why, int &skipCallbacks) {
+  skipCallbacks = 0;
+  std::vector<std::string> ops;
+  long long calls = 0;
+  bool inexact = false;
   try {
     if (stage == 'L') {
       Circuit c = start;
@@ -394,41 +547,72 @@ static bool twinOps(ChildOut &co, char stage, const Circuit &start, const Coloqu
       return true;
     }
     if (stage == 'D') {
+      if (cbMode != 0 && throwAt == 0) {
+        why = "throws_in_legalize_callback";
+        return false;
+      }
       Circuit c = start;
       c.legalize(params);
+      Circuit legalized = c;
       DetailedPlacer pl(c, params);
-      pl.check();
-      pl.run();
-      pl.check();
-      const DetailedPlacement &dp = pl.placement_;
-      std::ostringstream op;
-      op << "dexp " << dp.nbCells();
-      for (int j = 0; j < dp.nbCells(); ++j)
-        op << " " << dp.cellIndex()[j] << " " << dp.cellX(j) << " " << dp.cellY(j) << " " << (int)dp.cellOrientation(j);
-      co.opCircuit(c);  // the circuit as legalization left it
-      co.op(op.str());
+      calls = 1;  // invocation 0 of the real run is the one of DetailedPlacer::legalize
+      skipCallbacks = cbMode != 0 ? 1 : 0;
+      bool threw = false;
+      if (cbMode != 0)
+        pl.callback_ = [&](PlacementStep) {
+          ops.push_back(detOp("dcb", pl.placement_));
+          if (calls++ == throwAt) throw CbThrow();
+        };
+      try {
+        pl.check();
+        pl.run();
+        pl.check();
+      } catch (const CbThrow &) {
+        threw = true;
+      }
+      if (!threw) ops.push_back(detOp("dexp", pl.placement_));
+      co.opCircuit(legalized);  // the circuit as legalization left it
+      for (auto &o : ops) co.op(o);
       return true;
     }
     if (stage == 'G') {
       Circuit c = start;
       params.check();
       GlobalPlacer pl(c, params);
-      pl.run();
-      float w = pl.params_.global.exportBlending;
-      std::vector<float> xs = blend(pl.xPlacementLB_, pl.xPlacementUB_, w), ys = blend(pl.yPlacementLB_, pl.yPlacementUB_, w);
-      std::ostringstream op;
-      op << "gexp " << c.nbCells();
-      for (int i = 0; i < c.nbCells(); ++i) {
-        if (!c.isFixed(i) && (!exactSub(xs[i], c.placedWidth(i)) || !exactSub(ys[i], c.placedHeight(i)))) {
-          why = "inexact";
-          return false;
-        }
-        // fixed cells: the value is ignored by the export; NaN/inf cannot be serialized
-        float fx = std::isfinite(xs[i]) ? xs[i] : 0.0f, fy = std::isfinite(ys[i]) ? ys[i] : 0.0f;
-        op << " " << exactFloat(fx) << " " << exactFloat(fy);
+      bool threw = false;
+      if (cbMode != 0)
+        pl.callback_ = [&](PlacementStep s) {
+          // GlobalPlacer::callback is handed the LB vectors at LowerBound steps and the UB vectors otherwise
+          const std::vector<float> &xs = s == PlacementStep::LowerBound ? pl.xPlacementLB_ : pl.xPlacementUB_;
+          const std::vector<float> &ys = s == PlacementStep::LowerBound ? pl.yPlacementLB_ : pl.yPlacementUB_;
+          if (!exactVectors(c, xs, ys)) inexact = true;
+          std::ostringstream op;
+          op << "gcb " << c.nbCells();
+          for (int i = 0; i < c.nbCells() && i < (int)xs.size() && i < (int)ys.size(); ++i) op << " " << fl(xs[i]) << " " << fl(ys[i]);
+          ops.push_back(op.str());
+          if (calls++ == throwAt) throw CbThrow();
+        };
+      try {
+        pl.run();
+      } catch (const CbThrow &) {
+        threw = true;
+      }
+      if (!threw) {
+        float w = pl.params_.global.exportBlending;
+        std::vector<float> xs = blend(pl.xPlacementLB_, pl.xPlacementUB_, w), ys = blend(pl.yPlacementLB_, pl.yPlacementUB_, w);
+        if (!exactVectors(c, xs, ys) || !std::isfinite(w)) inexact = true;
+        std::ostringstream op;
+        op << "gfin " << exactFloat(w) << " " << c.nbCells();
+        for (int i = 0; i < c.nbCells(); ++i)
+          op << " " << fl(pl.xPlacementLB_[i]) << " " << fl(pl.xPlacementUB_[i]) << " " << fl(pl.yPlacementLB_[i]) << " " << fl(pl.yPlacementUB_[i]);
+        ops.push_back(op.str());
+      }
+      if (inexact) {
+        why = "inexact";
+        return false;
       }
       co.opCircuit(start);
-      co.op(op.str());
+      for (auto &o : ops) co.op(o);
       return true;
     }
   } catch (const std::exception &e) {
@@ -459,15 +643,18 @@ static void stageCase(ChildOut &co, const std::string &id, vh::Rng &g) {
   co.count("stage:fixed_cells_" + std::to_string(std::min(nFixed, 4)) + (nFixed >= 4 ? "+" : ""));
   co.count(nFixed == n ? "stage:all_fixed" : (nFixed == 0 ? "stage:none_fixed" : "stage:mixed"));
   co.count("stage:params_" + pkind);
+  co.count(params.global.exportBlending == 0.0f ? "stage:blend_weight_0" : params.global.exportBlending == 1.0f ? "stage:blend_weight_1" : "stage:blend_weight_other");
   co.count("stage:callback_" + std::string(cbMode == 0 ? "none" : cbMode == 1 ? "observing" : "throwing"));
+  measureShapes(co, "stage", c);
   for (size_t si = 0; si < seq.size(); ++si) {
     char st = seq[si];
     bool orientFree = st != 'G';
-    // correspondence through the stage wrapper (no callback: a single export at the end of the stage)
+    // correspondence through the stage wrapper: one export per callback invocation and one at the end
     bool tied = false;
-    if (cbMode == 0 && pkind == "valid") {
+    int skipCb = 0;
+    if (pkind == "valid") {
       std::string why;
-      tied = twinOps(co, st, c, params, why);
+      tied = twinOps(co, st, c, params, cbMode, throwAt, why, skipCb);
       if (!tied) co.count(std::string("stage:twin_") + st + "_" + why);
     }
     Snap before = snap(c);
@@ -479,6 +666,10 @@ static void stageCase(ChildOut &co, const std::string &id, vh::Rng &g) {
         // exposed state: the frame must already hold here
         std::string d = frameDiff(before, snap(c), orientFree);
         if (!d.empty()) co.fail(std::string("at callback ") + std::to_string(calls) + " of stage " + st + ": " + d, input);
+        if (tied && calls >= skipCb && st != 'L') {
+          co.impl(std::string(st == 'G' ? "gcb " : "dcb ") + vc::solutionString(c));
+          co.count(std::string("stage:tied_callback_") + st);
+        }
         if (calls++ == throwAt) {
           cbThrew = true;
           throw CbThrow();
@@ -502,10 +693,14 @@ static void stageCase(ChildOut &co, const std::string &id, vh::Rng &g) {
     co.count(std::string("stage:") + st + "_" + (res == "ok" ? "returned" : cbThrew ? "callback_threw" : pkind == "rejected" ? "rejected_params" : "threw"));
     if (calls > 0) co.count(std::string("stage:") + st + "_callback_invocations", calls);
     if (tied) {
-      if (res == "ok") {
-        std::string opn = st == 'G' ? "gexp " : st == 'L' ? "lexp ok " : "dexp ";
+      if (res == "ok" || (cbThrew && st == 'L')) {
+        // (a callback of legalization runs after the export: the circuit it leaves by throwing is the exported one)
+        std::string opn = st == 'G' ? "gfin " : st == 'L' ? "lexp ok " : "dexp ";
         co.impl(opn + vc::solutionString(c));
-        co.count(std::string("stage:tied_") + st);
+        co.count(std::string("stage:tied_") + st + (cbMode == 0 ? "" : cbThrew ? "_callback_threw" : "_with_callback"));
+      } else if (cbThrew) {
+        // the twin stopped at the same invocation: every exposed placement has been compared
+        co.count(std::string("stage:tied_") + st + "_callback_threw");
       } else {
         // not a frame violation: shows up as a correspondence difference only
         co.impl("stage-threw " + res);
@@ -523,7 +718,9 @@ int main(int argc, char **argv) {
   vh::Out out(a.out);
   out.rule =
       "export stream: random circuit (any mix of fixed cells) x arbitrary vectors handed to the three export functions; "
-      "stage stream: circuit x stage sequence x parameters x callback mode.  Non-trivial = the circuit has both fixed and "
+      "stage stream: circuit x stage sequence x parameters x callback mode (none / observing / throwing at a random invocation); "
+      "half of the mixed circuits get planted shapes (fixed non-obstruction cell, fixed cell before a movable cell of another "
+      "orientation, fixed cell outside the rows: counters *:shape_*).  Non-trivial = the circuit has both fixed and "
       "movable cells (and, for stages, at least one movable cell actually moved); distinct by canonical text of the input";
   std::vector<Job> jobs;
   auto parseId = [&](const std::string &id) {
